@@ -81,6 +81,13 @@ Theorem C05_pins_comparisons :
   cmp_keys (ptr (pin_trace d (path_probes V sepcheck t k) None)) = cmp_trace V sepcheck t k.
 Proof. intros V d sc t k. rewrite PinsProofs.trace_keys. apply PinsProofs.path_probes_trace. Qed.
 
+(* a call in which comparison number n (counted from 0) raises performs the first n + 1 comparisons of the
+   complete call and no other: the failing call is the complete call cut short (its pins: C05_pins_released) *)
+Theorem C05_pins_failure_cuts_short :
+  forall (d : disc) (p : list (nat * list Z)) (n : nat),
+  cmp_keys (ptr (pin_trace d p (Some n))) = firstn (S n) (all_probes p).
+Proof. exact PinsProofs.trace_cut. Qed.
+
 (* a three-level tree: the three disciplines differ, and a raising comparison is really cut short *)
 Definition ex_tree : wtr :=
   WTN [WTK 0 (WTN [WTK 0 (WTL [1; 2]); WTK 5 (WTL [5; 6])]);
@@ -101,3 +108,4 @@ Print Assumptions C05_pins_protect.
 Print Assumptions C05_write_path_pinned.
 Print Assumptions C05_range_root_pinned.
 Print Assumptions C05_pins_comparisons.
+Print Assumptions C05_pins_failure_cuts_short.
